@@ -85,6 +85,7 @@ class Interp:
         s.fptosi_log = []
         s.table_loads = []
         s.round_log = []
+        s.deadline = None
         s.typeid_matches = 0
         s.undef_reads = 0
         s._lay = _LAYOUT.setdefault(id(module), {})
@@ -349,6 +350,7 @@ class Interp:
         cond = z3.simplify(cond)
         if z3.is_true(cond): return True
         if z3.is_false(cond): return False
+        if s.deadline is not None and time.time() > s.deadline: raise Unsupported('exploration deadline exceeded')
         if s.dpos < len(s.decisions):
             d = s.decisions[s.dpos]; s.dpos += 1
         else:
@@ -811,6 +813,7 @@ def explore(module, models, body, max_paths=20000, parsed=None, fpmode='real', t
     while pending:
         dec = pending.pop()
         it = Interp(module, models); it.parsed = parsed; it.decisions = list(dec); it.fpmode = fpmode; it.on_call = on_call
+        if timeout: it.deadline = t0 + timeout
         try:
             r = body(it)
             results.append((it, r))
